@@ -32,7 +32,8 @@ Walk(init, hist, i, acc) ==
             << <<"C16:HelpersChangeOnlyTheirOwnTag", hist[i].twinSame>> >>))
 
 Clauses(e) ==
-  IF e.k = "css" THEN FailList(
+  IF e.k = "obs" THEN FailList(<< <<"C16:" \o e.name, e.holds>> >>)
+  ELSE IF e.k = "css" THEN FailList(
      << <<"C16:CssEmitsOneDeclarationPerNonNoneArgumentHyphenatedLowerCase", e.out = CssSpec(e.kw)>>,
         <<"C16:CssOutputAcceptedByAddStyle", e.out.p => e.accepted>>,
         <<"DRIFT:CssCodeShape", e.out = CssCode(e.kw, <<>>)>> >>)
